@@ -221,6 +221,10 @@ class BlockEval:
         if isinstance(s, ast.Assign) and len(s.targets) == 1 and isinstance(s.targets[0], ast.Subscript):
             t = s.targets[0]
             self.substores.append((self.sub(t.value, pc), self.sub(t.slice, pc), self.sub(s.value, pc), list(pc), list(self.loopstack), s))
+        if isinstance(s, ast.AugAssign) and isinstance(s.target, ast.Subscript) and not isinstance(s.target.value, ast.Name):
+            t = s.target
+            self.substores.append((self.sub(t.value, pc), self.sub(t.slice, pc), self.sub(s.value, pc), list(pc), list(self.loopstack), s))
+            return
         if isinstance(s, ast.AugAssign) and isinstance(s.target, ast.Subscript) and isinstance(s.target.value, ast.Name):
             nm = s.target.value.id
             ev = Event('update', nm, (self.sub(s.target.slice, pc), s.op, self.sub(s.value, pc)), pc, s, self.loopstack)
